@@ -236,15 +236,27 @@ def scenario(rng, T, roots, gated, plan, tag='wt'):
         if proc.poll() is not None:
             bad('C06', 'zinoma --watch exited (status %s)' % proc.returncode)
         stale = []
-        # C07 in watch mode: while the last finished run of a dependency is a failure, no dependent starts
+        # C07 in watch mode: while the last finished run of a dependency is a failure, no dependent starts.  Judged on the
+        # scripts' own timestamps (the order of the lines of the trace is the order of the writes, not of the events), and only
+        # when the failure had ended well before the start: the decision to start t precedes the time t's shell reports, and a
+        # dependency invalidated at the same moment may have run and failed in between (spawn latency ~ms; margin 0.5 s)
+        def tsf(f):
+            try:
+                return float(f[3])
+            except (IndexError, ValueError):
+                return None
         last_end = {}
         for f in tr:
             if f[0] == 'end':
                 last_end[f[1]] = f[2]
-            elif f[0] == 'start':
+        ends = sorted([(tsf(f), f[1], f[2]) for f in tr if f[0] == 'end' and tsf(f) is not None])
+        for f in tr:
+            if f[0] == 'start' and tsf(f) is not None:
                 for p in T[f[1]]['producers'] + T[f[1]]['deps']:
-                    if last_end.get(p) == '1':
-                        bad('C07', '%s started although the last run of its dependency %s had failed and was not repaired yet' % (f[1], p))
+                    before = [(te, st) for (te, x, st) in ends if x == p and te < tsf(f)]
+                    if before and before[-1][1] == '1' and tsf(f) - before[-1][0] > 0.5:
+                        bad('C07', '%s started %.3f s after the last run of its dependency %s had failed, which was not repaired yet'
+                            % (f[1], tsf(f) - before[-1][0], p))
         for t in sorted(clo):
             s = T[t]
             if s['kind'] == 'aggregate':
